@@ -1,5 +1,18 @@
 import sys
-from .runner import main
+import traceback
+
+
+def _main():
+    try:
+        from .runner import main
+        return main()
+    except SystemExit:
+        raise
+    except BaseException:            # never let a harness failure look like a verdict
+        traceback.print_exc()
+        print("HARNESS-ERROR uncaught exception in the checker (see traceback above)")
+        return 2
+
 
 if __name__ == "__main__":
-    sys.exit(main())
+    sys.exit(_main())
